@@ -359,21 +359,12 @@ theorem C14_duplicate_refused (ops : List Op) (w : Wp) (hw : w ∈ (run {} ops).
   · intro sz c; simp [addMem, ho]
   · intro e b c se; simp [addExpr, ho]
 
-/-- a request for a watchpoint on a scoped expression -/
-def opScoped : Op → Bool
-  | .addExpr _ _ _ _ (some _) => true
-  | _ => false
-
-/-- full statement: a refused request leaves the whole system (registers of all threads, registry, breakpoints,
-counters) unchanged -/
-def C14_refused_no_side_effect_full : Prop :=
-  ∀ (ops : List Op) (op : Op) (e : Err),
-    (step (run {} ops) op).1 = .refused e → (step (run {} ops) op).2 = run {} ops
-
-/-- proved part: every refusal except "limit reached on a *scoped* expression" is free of side effects (this
-covers the fifth watchpoint by address or on a global, every duplicate, every wrong size) -/
-theorem C14_refused_no_side_effect_partial (s : Sys) (op : Op) (e : Err)
-    (hyp : opScoped op = false ∨ e ≠ .limitReached) (h : (step s op).1 = .refused e) : (step s op).2 = s := by
+/-- **C14_refused_no_side_effect** (full strength; false before the repair of `from_dqe`, which created the
+end-of-scope companion breakpoint before `hw.enable` could refuse): a refused request — fifth watchpoint by address,
+on a global or on a scoped local, every duplicate, every wrong size — leaves the whole system (registers of all
+threads, registry, breakpoints, counters) unchanged. -/
+theorem C14_refused_no_side_effect (s : Sys) (op : Op) (e : Err)
+    (h : (step s op).1 = .refused e) : (step s op).2 = s := by
   cases op with
   | addMem a sz c =>
     simp only [step] at h ⊢
@@ -394,21 +385,10 @@ theorem C14_refused_no_side_effect_partial (s : Sys) (op : Op) (e : Err)
       · cases hs : BreakSize.ofBytes? b with
         | none => simp [ho, hb]
         | some size =>
-          cases se with
-          | none =>
-            simp only [ho, hb, hs, Bool.false_eq_true, if_false] at h ⊢
-            cases he : hwEnable s { addr := a, size := size, cond := c } with
-            | error e' => simp
-            | ok v => obtain ⟨st, hw', s1⟩ := v; simp [he] at h
-          | some a' =>
-            simp only [ho, hb, hs, Bool.false_eq_true, if_false] at h ⊢
-            cases he : hwEnable (addCompanion s a').2 { addr := a, size := size, cond := c } with
-            | error e' =>
-              simp only [he] at h
-              rcases hyp with hy | hy
-              · simp [opScoped] at hy
-              · have := (hwEnable_error he).2; simp at h; subst h; exact absurd this hy
-            | ok v => obtain ⟨st, hw', s1⟩ := v; simp [he] at h
+          simp only [ho, hb, hs, Bool.false_eq_true, if_false] at h ⊢
+          cases he : hwEnable s { addr := a, size := size, cond := c } with
+          | error e' => simp
+          | ok v => obtain ⟨st, hw', s1⟩ := v; simp [he] at h
   | rmNum n => simp only [step] at h; unfold rmRes at h; split at h <;> simp at h
   | rmAddr a => simp only [step] at h; unfold rmRes at h; split at h <;> simp at h
   | rmExpr x => simp only [step] at h; unfold rmRes at h; split at h <;> simp at h
@@ -431,34 +411,29 @@ theorem C14_refused_no_side_effect_partial (s : Sys) (op : Op) (e : Err)
       · simp at h
   | restart alive => simp only [step] at h; split at h <;> simp at h
 
-/-- witness of the defect: four watchpoints by address, then a fifth on a scoped local (companion at 36864) -/
+/-- witness of the repaired defect: four watchpoints by address, then a fifth on a scoped local (companion at
+36864).  Replayed on the real code by the corpus. -/
 def C14_witness : List Op :=
   [.addMem 4096 .Bytes8 .DataWrites, .addMem 4104 .Bytes8 .DataWrites, .addMem 4112 .Bytes4 .DataReadsWrites,
    .addMem 4120 .Bytes1 .DataWrites]
 def C14_witness_op : Op := .addExpr 7 4128 8 .DataWrites (some 36864)
 
-/-- the unchanged code violates the full statement: the refused fifth watchpoint on a scoped local leaves its
-companion breakpoint in the breakpoint registry (`watchpoint.rs`: companion created before `hw.enable` fails) -/
-theorem C14_refused_no_side_effect_counterexample : ¬ C14_refused_no_side_effect_full := by
-  intro h
-  have := h C14_witness C14_witness_op .limitReached (by decide +kernel)
-  revert this
+/-- on the witness the fifth watchpoint is refused and nothing is left behind: no companion breakpoint, no
+breakpoint number consumed (before the repair the companion stayed, listing watchpoint number 5 that was never
+allocated; its next hit tripped `debug_assert_eq!` in the end-of-scope hook, or — after the number had been given to
+a later watchpoint — removed that foreign watchpoint) -/
+theorem C14_refused_witness :
+    (step (run {} C14_witness) C14_witness_op).1 = .refused .limitReached ∧
+    (step (run {} C14_witness) C14_witness_op).2 = run {} C14_witness ∧
+    (step (run {} C14_witness) C14_witness_op).2.comps = [] := by
   decide +kernel
 
-/-- consequence 1: the next hit of that stale companion trips `debug_assert_eq!` in the end-of-scope hook
-(the listed watchpoint number was never allocated) -/
-theorem C14_stale_companion_panics_counterexample :
-    (step (step (run {} C14_witness) C14_witness_op).2 (.scopeEnd 36864)).1 = .panic := by
-  decide +kernel
-
-/-- consequence 2: the number the refused watchpoint would have had is given to the next successful one, which the
-stale companion then removes although it is not scoped: remove #1, add a watchpoint on 8192 (gets number 5), hit the
-stale companion -> the end-of-scope hook removes watchpoint 5 -/
-theorem C14_stale_companion_removes_foreign_counterexample :
+/-- after the refusal the history continues as if the request had never been made: remove #1, add a watchpoint on
+8192 (it gets number 5); there is no companion at 36864 whose hit could remove it -/
+theorem C14_refused_then_reuse_witness :
     let s := run {} (C14_witness ++ [C14_witness_op, .rmNum 1, .addMem 8192 .Bytes8 .DataWrites])
-    (s.wps.any (fun w => w.hw.addr == 8192 && !w.scoped)) = true ∧
-    (step s (.scopeEnd 36864)).1 = .ended [5] ∧
-    ((step s (.scopeEnd 36864)).2.wps.any (fun w => w.hw.addr == 8192)) = false := by
+    s = run {} (C14_witness ++ [.rmNum 1, .addMem 8192 .Bytes8 .DataWrites]) ∧
+    (s.wps.any (fun w => w.hw.addr == 8192 && w.num == 5)) = true ∧ s.comps = [] := by
   decide +kernel
 
 /-! ## restart, end of scope -/
